@@ -626,7 +626,8 @@ static stamp_t
 __tai_offs(stamp_t t)
 {
 	/* difference of TAI and UTC at epoch instant */
-	zidx_t zi = leaps_before_si32(leaps_s, nleaps_corr, t);
+	zidx_t zi = leaps_before_si32(
+		leaps_s, nleaps_corr, leaps_si32_key(t));
 
 	return leaps_corr[zi];
 }
